@@ -69,7 +69,6 @@ struct Hideset {
 static HashMap macros;
 static CondIncl *cond_incl;
 static HashMap pragma_once;
-static int include_next_idx;
 
 static Token *preprocess2(Token *tok);
 static Macro *find_macro(Token *tok);
@@ -801,6 +800,11 @@ static bool expand_macro(Token **rest, Token *tok) {
   return true;
 }
 
+// For a file that was found through the include paths, the position
+// of its directory in the list, plus one. #include_next continues the
+// search from there.
+static HashMap include_dir_idx;
+
 char *search_include_paths(char *filename) {
   if (filename[0] == '/')
     return filename;
@@ -816,17 +820,23 @@ char *search_include_paths(char *filename) {
     if (!file_exists(path))
       continue;
     hashmap_put(&cache, filename, path);
-    include_next_idx = i + 1;
+    hashmap_put(&include_dir_idx, path, (void *)(long)(i + 1));
     return path;
   }
   return NULL;
 }
 
-static char *search_include_next(char *filename) {
-  for (; include_next_idx < include_paths.len; include_next_idx++) {
-    char *path = format("%s/%s", include_paths.data[include_next_idx], filename);
-    if (file_exists(path))
-      return path;
+// #include_next searches the directories that follow the one in which
+// the current file was found. A file that was not found through the
+// include paths searches all of them.
+static char *search_include_next(char *filename, File *current) {
+  int start = (long)hashmap_get(&include_dir_idx, current->name);
+  for (int i = start; i < include_paths.len; i++) {
+    char *path = format("%s/%s", include_paths.data[i], filename);
+    if (!file_exists(path))
+      continue;
+    hashmap_put(&include_dir_idx, path, (void *)(long)(i + 1));
+    return path;
   }
   return NULL;
 }
@@ -1004,7 +1014,7 @@ static Token *preprocess2(Token *tok) {
     if (equal(tok, "include_next")) {
       bool ignore;
       char *filename = read_include_filename(&tok, tok->next, &ignore);
-      char *path = search_include_next(filename);
+      char *path = search_include_next(filename, start->file);
       tok = include_file(tok, path ? path : filename, start->next->next);
       continue;
     }
